@@ -206,6 +206,18 @@ Proof.
   - intros e He w [].
   - intros e w He [].
 Qed.
+Theorem store_io_noreply_value_ready p p' name values cmds : peer p cmds = (p', []) ->
+  hoare (Ready p) (store_io P peer c name values true cmds)
+        (fun r w => r = fold_left (fun d kv => dict_set d (fst kv) (DBool true)) values [] /\ exists sid, St sid p' [] w) (fun _ _ => False).
+Proof.
+  intros Hp. unfold store_io, exchange. start_ready anybuf p. intros u. cbn beta. apply h_ex. intros sid.
+  eapply h_bind with (Q1 := fun _ => St sid p []); [apply (h_reset_conn P anybuf sid p)|]. intros u1. cbn beta.
+  eapply h_try with (E1 := fun _ _ => False).
+  - eapply h_bind with (Q1 := fun _ => St sid p' []); [apply (h_send_quiet P peer sid p cmds p' [] Hp)|]. intros u2. cbn beta iota. apply h_ret'.
+    intros w H. split; [reflexivity|exists sid; exact H].
+  - intros e He w [].
+  - intros e w He [].
+Qed.
 Theorem misc_cmd_noreply_ready p p' cmds : peer p (concat cmds) = (p', []) ->
   hoare (Ready p) (misc_cmd P peer c cmds true []) (fun _ w => exists sid, St sid p' [] w) (fun _ _ => False).
 Proof.
